@@ -59,7 +59,8 @@ Record cfg := {
   g_bound : N;            (* the port the OS hands out for the local listener *)
   g_pending : bool;       (* the configuration is not available yet when listen() is called *)
   g_bind_ok : bool;       (* the local bind succeeds *)
-  g_two_clients : bool    (* an authenticated service is asked for with two client names instead of one *)
+  g_two_clients : bool;   (* an authenticated service is asked for with two client names instead of one *)
+  g_same_dir : bool       (* the TorConfig already holds a (plain filesystem) service with the directory asked for *)
 }.
 
 Inductive lop :=
@@ -384,6 +385,14 @@ Fixpoint loopback_and_mapping (c : cfg) (nl nc : nat) (bound_ok : bool) (tr : li
   end.
 
 (* ---- input classes of the open findings ---- *)
+(* C17-F5: the requested HiddenServiceDir is already in the configuration: listen() binds a fresh local port and
+   tells Tor nothing, so the public port keeps being forwarded to the old local port *)
+Definition directory_already_configured (c : cfg) : bool :=
+  match request (g_route c) with
+  | Some q => negb (q_eph q) && q_hsdir q && g_same_dir c
+  | None => false
+  end.
+
 (* C17-F4: stealth authentication with several clients: Tor assigns one hostname per client and the
    address of the port reports none of them *)
 Definition stealth_several_clients (c : cfg) : bool :=
